@@ -179,5 +179,23 @@ def check_c17(prop, tier, seed, work, t0):
                                      "how": "./check C17 --replay <file>   (single overload: <binary> --part wrappers --only <family>:<id> --seed <seed> --nofork)"})
 
 
+def asan_results(tier, seed, work, trials):
+    """sanitizer-only slice for C18: asan + asan512 builds of the same monitor (jobs to build, runs to execute)"""
+    try:
+        entries, excluded, deffiles = gen_overloads.parse_repo(vfw.REPO)
+    except gen_overloads.Unfit as ex:
+        raise vfw.Inconclusive("C17 overload table: %s" % ex)
+    diffs = gen_overloads.compare(gen_overloads.table_of(entries, excluded), gen_overloads.load_table())
+    if diffs:
+        raise vfw.Inconclusive("C17 overload table differs from the header: " + "; ".join(diffs[:5]))
+    thunks = gen_overloads.emit(entries, work.path("gen17"))
+    srcs = [H("wrappers17.cpp")] + thunks
+    flavours = ["asan", "asan512"] if vfw.have_avx512() else ["asan"]
+    jobs = [{"name": "w17-" + fl, "flavour": fl, "srcs": srcs, "libsrcs": ["goldilocks_base_field.cpp"]} for fl in flavours]
+    runs = [("w17-" + fl, "C17", seed + 1000003 + i, ["--part", "wrappers", "--trials", str(trials)], "w17-" + fl, NCPU, None) for i, fl in enumerate(flavours)]
+    runs.append(("w17-asan", "C17", seed + 7, ["--part", "par"], "w17-par-asan", 4, {"OMP_THREAD_LIMIT": "1024"}))
+    return jobs, runs
+
+
 def register(reg):
     reg["C17"] = check_c17
